@@ -14,6 +14,7 @@ theorem msgFieldSmall_tie : Generated.msgFieldSmall = Pinned.msgFieldSmall := by
 theorem msgFieldBig_tie : Generated.msgFieldBig = Pinned.msgFieldBig := by decide
 theorem maxSize_tie : Generated.maxSize = Pinned.maxSize := by decide
 theorem protocolLine_tie : Generated.protocolLine = Pinned.protocolLine := by decide
+theorem maxReadChunk_tie : Generated.maxReadChunk = Pinned.maxReadChunk := by decide
 
 /-- the `Pinned` type-code definitions used by the models agree with the pinned table -/
 theorem pinned_codes_consistent :
